@@ -81,7 +81,7 @@ def ancestors(pm, n):
 def is_try_propagated(pm, n):
     """True if expression n is the operand of `?` (possibly after map_err/ok_or/context adapters)."""
     cur = n
-    for _ in range(8):
+    for _ in range(14):
         p = pm.get(id(cur))
         if p is None:
             return False
@@ -95,6 +95,12 @@ def is_try_propagated(pm, n):
             continue
         if k in ("DropTemps", "Use", "Type"):
             cur = p
+            continue
+        if k == "Block" and p.get("expr") is cur and "mac_src" not in p:
+            cur = p   # the value of the block
+            continue
+        if k in ("Call", "MethodCall") and p.get("inlined") is cur:
+            cur = p   # the value of a helper body attached to its call site (facts._graft_helpers)
             continue
         return False
     return False
